@@ -61,7 +61,7 @@ def localSpanViol (len : Nat) (n : Node) : List Viol :=
 /-- C03 on one tree -/
 def containsD19 (n : Node) : Bool :=
   n.preorder.any fun m => match m with
-    | .pipeline _ (.reservedword (0, 0) _ :: _) => true
+    | .pipeline _ ps => ps.any fun q => match q with | .reservedword p _ => p.2 ≤ p.1 | _ => false
     | _ => false
 
 /-- C03 on one tree.  A pipeline whose first part is a reserved word at span (0,0) is reported
@@ -70,7 +70,7 @@ def containsD19 (n : Node) : Bool :=
 def spansWF (len : Nat) (n : Node) (dbg : Bool := false) : List Viol :=
   (n.preorder.map fun m =>
     (localSpanViol len m).map fun v =>
-      v ++ (if containsD19 m && !(v.startsWith "empty-span") then "+emptydesc" else "") ++
+      v ++ (if containsD19 m then "+emptydesc" else "") ++
         (if dbg then s!"@{m.pos.1}-{m.pos.2}" else "")).flatten
 
 /-! ## C12 -/
@@ -244,7 +244,8 @@ def localTextViol (s : Str) (n : Node) : List Viol :=
   | .operator _ op =>
     if tc == op then []
     else if op == ['\n'] && tc.head? == some '\n' then ["newline-operator-extended-over-heredoc"]
-    else if tc == op ++ ['\\'] && n.pos.2 == s.length then ["operator-span-includes-final-backslash"]
+    else if tc == op ++ ['\\'] && (s.drop n.pos.2 == [] || s.drop n.pos.2 == ['\n']) then
+      ["operator-span-includes-final-backslash"]
     else ["operator-text"]
   | .reservedword _ w => bad (tc == w) "reservedword-text"
   | .pipe _ w => bad (tc == w) "pipe-text"
